@@ -1,6 +1,6 @@
 """C02 -- editing an existing image preserves everything that was not edited.  DESIGN.md section 8.2."""
 from harness import common
-from harness.props import c01, parseleaf
+from harness.props import c01, parseleaf, parserrleaf
 
 MODULE = 'C02'
 THEOREMS = ['C02_rm_link_frame', 'C02_rm_file_exact', 'C02_spec_invariant', 'C02_nonvacuous']
@@ -10,6 +10,7 @@ def run(ctx):
     common.proof_stage(ctx, MODULE, sorted(set(THEOREMS) | set(common.theorems_of(MODULE))), extra_targets=['theories/Spec/FsCases.vo'])
     common.setup_impl_path()
     parseleaf.correspondence(ctx)
+    parserrleaf.correspondence(ctx)
     n = 300 if ctx.tier == 'quick' else 3000
     c01.system_check(ctx, 'C02', n, dict(allow_refusals=False, empty_bias=0.3), max_gen=4 if ctx.tier == 'quick' else 8,
                      nops=(6, 30) if ctx.tier == 'quick' else (10, 80), label='open-edit-write history',
